@@ -221,6 +221,31 @@ def ob_relay_set(run, oid):
             pv = tb.provenance(fm["children"])
             ok = any(x.endswith("Iterator::skip") for x in pv["calls"]) and any(x.endswith("Iterator::take") for x in pv["calls"]) and any(x.endswith("shuffle") for x in pv["calls"])
             o.check(ok, "TurbineTree::new|children", "children = shuffled order .skip(own_pos*fanout+1).take(fanout)", sp)
+            # ... for EVERY position: no shortcut that makes deeper layers leaves (the children value has a single definition, computed
+            # unconditionally from the shuffled order)
+            ct = fm["children"]
+            alt = []
+            if isinstance(ct, tuple) and ct and ct[0] == "local":
+                for d in tb.defs().get(ct[1], []):
+                    t = tb.call_term(d[1], d[3]) if d[0] == "call" else tb.rvalue_term(d[3]["rv"])
+                    pv2 = tb.provenance(t)
+                    if not (any(x.endswith("Iterator::skip") for x in pv2["calls"]) and any(x.endswith("Iterator::take") for x in pv2["calls"])):
+                        alt.append(mir.show(t)[:80])
+            sk = [c for c in tb.calls() if c.name.endswith("Iterator::skip")]
+            extra = DET.extra_guards(prog, tb, sk[0].bb, []) if sk else ["no skip call"]
+            o.check(not alt and not extra, "TurbineTree::new|children|every-position", "the children are computed the same way for every position in the tree (no layer is cut off)", sp,
+                    {"other_definitions": alt, "conditions": G.atoms_show(extra) if sk else extra})
+            # the offset formula: own_pos * fanout + 1, fanout children
+            if sk:
+                off = tb.operand_term(sk[0].args[1])
+                tk = [c for c in tb.calls() if c.name.endswith("Iterator::take")]
+                okf = False
+                a = off[1] if isinstance(off, tuple) and off[0] == "field" and off[2] == "0" else off
+                if isinstance(a, tuple) and a[0] == "bin" and a[1].startswith("Add") and K.const_eval(a[3]) == 1:
+                    m = a[2][1] if isinstance(a[2], tuple) and a[2][0] == "field" and a[2][2] == "0" else a[2]
+                    okf = isinstance(m, tuple) and m[0] == "bin" and m[1].startswith("Mul") and any(K.is_arg(tb, x, 2) for x in m[2:4])
+                okf = okf and bool(tk) and K.is_arg(tb, tb.operand_term(tk[0].args[1]), 2)
+                o.check(okf, "TurbineTree::new|children|offset", "offset = own_pos * fanout + 1, fanout children taken", sk[0].span, {"offset": mir.show(off)[:120]})
             pr = tb.provenance(fm["root"])
             o.check(any(x.endswith("shuffle") for x in pr["calls"]), "TurbineTree::new|root", "root = first of the shuffled order", sp)
 
